@@ -134,6 +134,17 @@ CHECKS = {
             "class x rewrite cell at once. NOT decided: dense values, broadcasting arithmetic of constants, argument "
             "types at rebuild sites, flags hidden behind an unrelated **dict.",
             TRUST + "; reviewed tables of non-value flags and exceptions in lo_static/props/c02.py.", "DESIGN.md section 3, C02"),
+    "C01": (True,
+            "MRO resolution of required hooks + contradiction rule over sibling implementations (transitive "
+            "attribute-read sets through self calls, super() and modelled base-class indirections)",
+            "Partial, structural: (I) every exported operator class resolves _matmul/_size/_transpose_nonbatch (and the "
+            "hooks its abstract base declares) to real implementations; (F) the constructor flags that select WHICH "
+            "matrix the arguments denote (bool/int-default flags that do not enter _size: upper, dim) are consulted by "
+            "to_dense and by _matmul alike, and by _t_matmul/_diagonal/_get_indices/_getitem at least as much - if one "
+            "sibling branches on the flag and another does not, the operator multiplies as a different matrix than it "
+            "densifies to for one value of the flag. Decided for all values, shapes and nestings at once. NOT "
+            "decided: numerical agreement of matmul / transpose / to_dense (FFT, Kronecker reshapes, interpolation).",
+            TRUST, "DESIGN.md section 3, C01"),
 }
 
 NOT_APPLICABLE = {
